@@ -3,4 +3,3 @@ double tenth(void) { return 1e-1; }
 double bump(double x) { return x + 15e-1; }
 float third = (float)1 / 3;
 double hexf = 0x3p-1;
-long double ld = (long double)7 / 2;
